@@ -337,3 +337,88 @@ def unwrap_kiwi(doc):
                     if outcome == 'value' and (out.cancelled() or out.exception() is not None or out.result() != 'final'):
                         return f'depth {depth}, value at level {level}: outer future wrong'
     return None
+
+
+# ---------------------------------------------------------------------------------------------------- C14
+def persister_history(doc):
+    """Both bundled persisters against the abstract map M : (pid, tag) -> snapshot (DESIGN D.5) over fixed mixed
+    histories with ids that are string prefixes of one another; listings, loads and deletes compared after every step."""
+    import asyncio
+    import shutil
+    import tempfile
+    import plumpy
+    from rprocs import Plain as P
+
+    async def main():
+        tmp = tempfile.mkdtemp(prefix='pyvc_replay_')
+        try:
+            for pids in ([1, 12, 120, 2], ['job', 'job2', 'x'],):
+                pers = {'mem': plumpy.InMemoryPersister(), 'pickle': plumpy.PicklePersister(tempfile.mkdtemp(dir=tmp))}
+                procs = {pid: P(pid=pid) for pid in pids}
+                model = {}
+                history = [('save', pids[0], None), ('save', pids[1], 'a'), ('save', pids[2], 'b'), ('save', pids[0], 'a'),
+                           ('save', pids[1], None), ('delete', pids[0], 'zz'), ('delete', pids[0], 'a'), ('delete', pids[0], 'a'),
+                           ('save', pids[-1], 'a'), ('delete_process', pids[0], None), ('delete_process', pids[0], None),
+                           ('save', pids[0], 't'), ('delete_process', pids[-1], None)]
+                for op, pid, tag in history:
+                    if op == 'save':
+                        model[(pid, tag)] = True
+                    elif op == 'delete':
+                        model.pop((pid, tag), None)
+                    else:
+                        for k in [k for k in model if k[0] == pid]:
+                            model.pop(k)
+                    for name, p in pers.items():
+                        if op == 'save':
+                            p.save_checkpoint(procs[pid], tag)
+                        elif op == 'delete':
+                            p.delete_checkpoint(pid, tag)
+                        else:
+                            p.delete_process_checkpoints(pid)
+                        got = sorted(((c.pid, c.tag) for c in p.get_checkpoints()), key=repr)
+                        if got != sorted(model, key=repr):
+                            return f'{name} persister after {op}({pid!r}, {tag!r}) lists {got}; the stored keys are {sorted(model, key=repr)}'
+                        for q in pids:
+                            gotq = sorted(((c.pid, c.tag) for c in p.get_process_checkpoints(q)), key=repr)
+                            if gotq != sorted((k for k in model if k[0] == q), key=repr):
+                                return f'{name} persister after {op}({pid!r}, {tag!r}): checkpoints of {q!r} listed as {gotq}'
+                        for (q, t) in [(pids[0], 'a'), (pids[1], 'a'), (pids[0], None)]:
+                            try:
+                                b = p.load_checkpoint(q, t)
+                                ok = (q, t) in model and b is not None
+                            except Exception:  # noqa
+                                ok = (q, t) not in model
+                            if not ok:
+                                return f'{name} persister after {op}({pid!r}, {tag!r}): load({q!r}, {t!r}) disagrees with the stored keys'
+            return None
+        finally:
+            shutil.rmtree(tmp, ignore_errors=True)
+
+    loop = asyncio.new_event_loop()
+    asyncio.set_event_loop(loop)
+    return loop.run_until_complete(main())
+
+
+def persister_snapshot_independent(doc):
+    """a checkpoint saved in the in-memory persister must not change when the live process changes afterwards"""
+    import asyncio
+    import copy
+    import plumpy
+
+    async def main():
+        from rprocs import CtxProc
+        p = CtxProc()
+        p.ctx.items = [1, 2]
+        pers = plumpy.InMemoryPersister()
+        pers.save_checkpoint(p, 'a')
+        before = copy.deepcopy(dict(pers.load_checkpoint(p.pid, 'a')))
+        p.ctx.items.append(3)
+        p.ctx.later = 'x'
+        after = dict(pers.load_checkpoint(p.pid, 'a'))
+        if before != after:
+            return f'stored snapshot changed with the live process: context {before.get("_context")} -> {after.get("_context")}'
+        return None
+
+    loop = asyncio.new_event_loop()
+    asyncio.set_event_loop(loop)
+    return loop.run_until_complete(main())
